@@ -36,6 +36,19 @@ CORPUS: list[dict] = [
      "ops": [["ptc", [["1", {"k": "2"}], ["1", {"k": "0"}], ["1", {"k": "1/2"}]], ["0", "1/2", "1", "3/2", "5/2", "3", "4"], False]]},
     {"mode": "scipy", "y0": ["2", "1"], "p0": ["1", "1/2"],
      "ops": [["tc", ["1", "2"]], ["ptc", [["1", {"k": "2"}], ["1", {"k": "0"}]], ["5/2", "3", "7/2"], False], ["sim", "5", 2]]},
+    # repeated cycles, every call handed the SAME float64 ndarray of relative time points (seeded/C14-2)
+    {"mode": "exact", "y0": ["1", "1"], "p0": ["1", "1/2", "0", "0"],
+     "ops": [["sim", "2", 2],
+             ["ptc", [["1", {"k": "2"}], ["2", {"k": "1/2"}]], ["1/2", "1", "9/4", "3"], True, 0],
+             ["ptc", [["1", {"k": "2"}], ["2", {"k": "1/2"}]], ["1/2", "1", "9/4", "3"], True, 0]]},
+    {"mode": "scipy", "y0": ["2", "1"], "p0": ["1", "1/2"],
+     "ops": [["ptc", [["1", {"k": "1"}], ["2", {"k": "2"}], ["3", {"k": "1/2"}]], ["1/2", "1", "9/4", "4", "11/2", "7"], True, 0],
+             ["ptc", [["1", {"k": "1"}], ["2", {"k": "2"}], ["3", {"k": "1/2"}]], ["1/2", "1", "9/4", "4", "11/2", "7"], True, 0],
+             ["ptc", [["1", {"k": "1"}], ["2", {"k": "2"}], ["3", {"k": "1/2"}]], ["1/2", "1", "9/4", "4", "11/2", "7"], True, 0]]},
+    # protocol continuing after an override at a time-dependent rate on the real solver
+    {"mode": "tdep", "y0": ["2", "1"], "p0": ["1/2", "1"],
+     "ops": [["sim", "1", 2], ["updvar", {"y": "0"}], ["prot", [["1", {"k": "1"}], ["1/2", {"k": "1/4"}]], 2],
+             ["ptc", [["1", {"k": "2"}], ["1", {"k": "1/2"}]], ["1/2", "1", "3/2"], True]]},
 ]
 
 
@@ -126,7 +139,7 @@ def oracle_protocols(h: dict, r: dict) -> list[dict]:
             for srow, frow in zip(seg, rows):
                 t = float(S.fr(srow[0]))
                 x, y = float(S.fr(srow[1])) if mode == "exact" else srow[1], float(S.fr(srow[2])) if mode == "exact" else srow[2]
-                exp = {"v1": pv["k"] * y + pv["a"] * t, "v2": pv["c"]} if mode == "exact" else {"v1": pv["k"] * x, "v2": pv["c"] * y}
+                exp = S.expected_fluxes(mode, pv, t, x, y)
                 got = dict(zip(cols, frow[1:]))
                 if srow[0] != frow[0] or any(abs(got.get(n, float("nan")) - e) > 1e-12 + 1e-9 * abs(e) for n, e in exp.items()):
                     bad.append({"op": len(obs) - 1, "tags": [], "what": f"fluxes of segment #{k} at t={srow[0]} are {got}, but the rate laws with that "
@@ -142,11 +155,15 @@ def histories(run: Run) -> list[dict]:
     rng = common.rng_for(run.seed, "c14")
     w = {"sim": 12, "tc": 8, "prot": 30, "ptc": 36, "steady": 0, "updpar": 5, "updvar": 10, "clear": 3}
     hs = list(CORPUS)
-    n_exact, n_scipy = (1800, 700) if thorough else (300, 130)
+    n_exact, n_scipy, n_tdep, n_shared = (1800, 700, 200, 240) if thorough else (300, 130, 30, 40)
     for _ in range(n_exact):
         hs.append(S.gen_history(rng, "exact", 4, weights=w, special=False))
     for _ in range(n_scipy):
         hs.append(S.gen_history(rng, "scipy", 4, weights=w, special=False))
+    for _ in range(n_tdep):
+        hs.append(S.gen_history(rng, "tdep", 4, weights=w, special=False))
+    for j in range(n_shared):
+        hs.append(S.gen_shared_grid(rng, "exact" if j % 3 else "scipy"))
     return [h for h in hs if any(op[0] in ("prot", "ptc") for op in h["ops"])]
 
 
@@ -158,7 +175,9 @@ def check(run: Run) -> None:
         "unequal dyadic durations, one or two parameters, repeated values; grids coinciding with / between / beyond the boundaries, "
         "before the start, relative or absolute), fresh or continuing earlier simulate / time-course calls, overrides and other protocols; "
         "real Simulator + real Scipy class on the exact stand-in solver (x'=k*y, y'=c: the state depends on WHEN k switches) and on the "
-        "real scipy (x'=-k*x, y'=k*x-c*y); non-trivial = >= 2 steps or a continued simulator; distinct by content"
+        "real scipy (x'=-k*x, y'=k*x-c*y; x'=-k*time*x, y'=c*time-k*y); ~20% of the grids are caller-owned float64 ndarrays and a family of "
+        "repeated cycles hands the SAME ndarray of (mostly relative) points to 2-3 consecutive calls: the array must be unchanged after "
+        "each call and each call's axis is judged; non-trivial = >= 2 steps or a continued simulator; distinct by content"
     )
     proofs_ok = run.check_proofs(AREA, PROPS)
     run.assumptions += S.ASSUMPTIONS
